@@ -387,6 +387,10 @@ class ImageBatch(DataTensor):
         r"""Get image at specified batch index, get a sub-batch, or a region of interest tensor."""
         if index is ...:
             return self._make_instance(self.tensor(), self.grids())
+        if index is None:
+            return self.tensor()[None]  # cannot be an ImageBatch with additional leading dimension
+        if isinstance(index, Tensor) and index.ndim == 0 and index.dtype != torch.bool:
+            index = int(index)
         if type(index) is tuple:
             # Resolve additional ellipses
             index = [j for i, j in enumerate(index) if j is not ... or ... not in index[:i]]
